@@ -20,14 +20,14 @@ ID = "C14"
 LEVEL = "model_checking"
 RULE = (
     "all contingency tables CT(3,1,2), CT(2,2,2), CT(4,1,1) (thorough: CT(3,2,2), CT(4,2,1)) x {IoU,Dice}; all predictions of G1(6,3) x 10 fixed references and "
-    "G2(2,3,3) x 8 fixed references (thorough: G1(7,3) x 12) x ASSD; x every threshold class; histories: every 16th (thorough: every 2nd) prediction of G1(6,3) / G2(2,3,3) x 1 (thorough: 2) partner reference per reference x one of (thorough: each of) {IoU,Dice,ASSD} x threshold classes: one matcher object matches sample A, sample B of the same shape, sample A again. non-trivial = some reference overlaps >= 2 predictions; "
+    "G2(2,3,3) x 8 fixed references (thorough: G1(7,3) x 12) x ASSD; x every threshold class; histories: every 4th (thorough: every 2nd) prediction of G1(6,3) / G2(2,3,3) x 1 (thorough: 2) partner reference per reference x each of {IoU,Dice,ASSD} x threshold classes: one matcher object matches sample A, sample B of the same shape, sample A again. non-trivial = some reference overlaps >= 2 predictions; "
     "distinct by overlap structure / array pair"
 )
 ASSUMPTIONS = [
     "merge order reconstructed from the documented best-first rule; when members tie in individual score any order that validates is accepted",
     "ASSD comparisons use 1e-9 relative tolerance (a strict improvement smaller than that is not demanded)",
 ]
-BUDGET = {"quick": 200, "thorough": 2400}
+BUDGET = {"quick": 320, "thorough": 2400}
 
 REFS_1D6 = [[1, 1, 1, 1, 1, 1], [0, 1, 1, 1, 1, 0], [1, 1, 1, 0, 0, 0], [1, 1, 1, 2, 2, 2], [1, 1, 0, 2, 2, 0], [0, 1, 1, 1, 2, 2],
             [1, 1, 1, 1, 2, 2], [1, 0, 1, 1, 0, 2], [2, 2, 0, 0, 1, 1], [1, 1, 1, 1, 0, 0]]
@@ -51,7 +51,7 @@ def blocks(tier):
     # histories: one matcher object is used on a sequence of samples of the same shape (as Panoptica_Evaluator does)
     for name, shape, k in geo[:2]:
         n = sc.grid_count(shape, k)
-        step = 16 if tier == "quick" else 2
+        step = 4 if tier == "quick" else 2
         for lo, hi in sc.ranges(n // step, 12):
             B.append(("reuse", name, shape, k, step, lo, hi))
     return B
@@ -68,7 +68,7 @@ def run_block(block, acc):
         for q in range(lo, hi):
             for a in range(nr):
                 for b in ((a + 1) % nr, (a + 3) % nr)[: 1 if step > 2 else 2]:
-                    for metric in ("IOU", "DSC", "ASSD") if step <= 2 else (("IOU", "DSC", "ASSD")[(q + a) % 3],):
+                    for metric in ("IOU", "DSC", "ASSD"):
                         run_case({"kind": "reuse", "refs": name, "shape": list(shape), "k": k, "pi": q * step + (1 if step > 1 else 0), "ra": a, "rb": b, "metric": metric}, acc)
         return
     if block[0] == "ct":
